@@ -40,8 +40,10 @@ def gen_history(rng, length):
             ops.append(("update", int(rng.choice([1, 6])), int(rng.choice([1, 4]))))
         elif r < 0.82:
             ops.append(("update-bad", int(rng.choice([0, 2])), str(rng.choice(["high", "negative"]))))
-        elif r < 0.90:
+        elif r < 0.86:
             ops.append(("pickle",))
+        elif r < 0.90:
+            ops.append(("dump-keep",))
         else:
             ops.append(("compress",))
     return ops
@@ -125,6 +127,13 @@ def check_history(res, rng, metric, kind, length):
         elif op[0] == "pickle":
             try:
                 idx = pickle.loads(pickle.dumps(idx))
+            except Exception as e:  # noqa
+                err = err_kind(e)
+            model_ops.append("pickle " + vo_tokens())
+        elif op[0] == "dump-keep":
+            # serialise and keep working with the ORIGINAL object ("the original remains usable afterwards")
+            try:
+                pickle.dumps(idx)
             except Exception as e:  # noqa
                 err = err_kind(e)
             model_ops.append("pickle " + vo_tokens())
